@@ -221,7 +221,19 @@ def run(R, env):
                     good = len(wr) == 1 and wr[0]["wop"] == "save" and ns_of(prog, wr[0]["args"][0]) == "inflight" and seq(wr[0]["args"][2])
                     if good:
                         ds = shared.write_value_alternatives(prog, wr[0], "inflight") or []
-                        good = len(ds) == 1 and loaded_pkt(ds[0][0]) and set(ds[0][1]) == {("status",)} and ds[0][1][("status",)][0] == "agg" and ds[0][1][("status",)][2] == status
+                        # `pkt.status = S` and `IBCTransfer { status: S, ..pkt }` are the same delta
+                        ed = None
+                        if len(ds) == 1:
+                            b0, d0 = ds[0]
+                            if loaded_pkt(b0):
+                                ed = dict(d0)
+                            elif b0[0] == "agg":
+                                ed = {}
+                                for _, n_, v_ in b0[3]:
+                                    if not (v_[0] == "field" and v_[2] == n_ and loaded_pkt(v_[1])):
+                                        ed[(n_,)] = v_
+                                ed.update(d0)
+                        good = ed is not None and set(ed) == {("status",)} and ed[("status",)][0] == "agg" and ed[("status",)][2] == status
                     R.ob("C07.R4", "%s:marks-packet-%s" % (name, status), good, "on %s the writes are %s; expected only save(sequence, loaded packet with status := %s)" % (wn, [(ns_of(prog, o["args"][0]), o["op"], fmt(o["args"][-1])[:120]) for o in wr], status), fn=ck)
         R.floor("C07.R4", "ack/timeout callbacks reached from sudo", n_cb, 2)
     # ------------------------------------------------------------ R5..R8 recover
@@ -360,6 +372,11 @@ def run(R, env):
                         for base, d in (shared.write_value_alternatives(prog, o, "inflight") or struct_deltas(v)):
                             if base[0] == "agg":
                                 ks = agg_field(base, "sequence")
+                                if ks is not None and ks[0] == "field" and ks[2] == "sequence" and ks[1][0] == "payload":
+                                    # struct-update of the record loaded under key k: its sequence is inherited
+                                    lc = shared.unwrap_payload(ks[1])
+                                    if lc[0] == "call" and lc[1].endswith(("Map::may_load", "Map::load")) and same(lc[2][2], k):
+                                        ks = k
                             elif ("sequence",) not in d and base[0] == "payload":
                                 # loaded under key k and sequence untouched: key == record holds inductively
                                 lc = shared.unwrap_payload(base)
